@@ -91,6 +91,7 @@ var errC17Transport = errors.New("injected transport failure")
 var errC17Serializer = errors.New("injected serializer failure")
 var errC17Deserializer = errors.New("injected deserializer failure")
 var errC17Torn = errors.New("injected torn body")
+var errC17Interceptor = errors.New("injected interceptor refusal")
 
 type c17TornReader struct {
 	data []byte
@@ -211,7 +212,7 @@ func genC17(t *simrt.Tape, tier string) Scenario {
 	}
 	sc.Timeout = []int64{0, 0, 30000, 1 << 40, 1 << 62, 1<<63 - 1}[t.Choose(6)]
 	sc.BodyKind = []string{"obj", "obj", "none"}[t.Choose(3)]
-	faults := []string{"none", "none", "none", "serializer", "transport", "torn", "empty", "malformed", "deserializer-nil", "missing-file", "read-error-after-body"}
+	faults := []string{"none", "none", "none", "serializer", "transport", "torn", "empty", "malformed", "deserializer-nil", "missing-file", "read-error-after-body", "interceptor-error"}
 	sc.Fault = faults[t.Choose(len(faults))]
 	sc.TornAt = t.Choose(12)
 	sc.Evals = []int{1, 0, 2, 3}[t.Choose(4)]
@@ -308,6 +309,13 @@ func (sc *c17Scenario) Run(s *simrt.Sim) {
 		for k, v := range sc.Header {
 			api.DefaultHeader.Set(k, v)
 		}
+	}
+	if sc.Fault == "interceptor-error" {
+		// the SimpleHTTP under the API has two interceptors; the first one refuses the request (a transport-level
+		// failure as far as the API is concerned): Err on the response, nothing reaches the network
+		refuse := network.Interceptor(func(*http.Request) error { return errC17Interceptor })
+		pass := network.Interceptor(func(*http.Request) error { return nil })
+		api.GetSimpleHTTP().AddInterceptor(&refuse, &pass)
 	}
 	headerBefore := api.DefaultHeader.Clone()
 	var serialized [][]byte
@@ -457,6 +465,9 @@ func (sc *c17Scenario) Run(s *simrt.Sim) {
 			wantSent = 0
 		}
 		if sc.Fault == "missing-file" && sc.BodyKind == "obj" && sc.isMultipart() {
+			wantSent = 0
+		}
+		if sc.Fault == "interceptor-error" {
 			wantSent = 0
 		}
 		if sent != wantSent {
